@@ -28,7 +28,7 @@ def types_program(extra_crates=('conjure_object',)):
     outs = sorted(glob.glob(os.path.join(tdir, 'debug', 'build', 'verif-types-*', 'out')), key=os.path.getmtime)
     if not outs:
         raise Inconclusive('generated sources not found')
-    for sub, mod in (('conjure', 'types'), ('conjure-exhaustive', 'exhaustive_types')):
+    for sub, mod in (('conjure', 'types'), ('conjure-exhaustive', 'exhaustive_types'), ('conjure-empty', 'empty_types')):
         base = os.path.join(outs[-1], sub)
         for d, _, fs in os.walk(base):
             for f in fs:
